@@ -124,6 +124,93 @@ func runLimiterConcurrent(o *Outcome, sc *LimScn) {
 	}
 }
 
+// C18, concurrent variant: several tasks issue requests at ONE simulated instant (first requests of new
+// addresses and connections included, so that buckets are being created while others look them up).
+// No time passes, so each limit may admit at most its burst: per address, per connection, per operation
+// type and address, and globally.
+func runLimiterBoundConcurrent(o *Outcome, sc *LimScn) {
+	cfg := sc.Cfg
+	rl := absnfs.NewRateLimiter(cfg.config())
+	type res struct {
+		ev LimEv
+		ok bool
+	}
+	done := make(chan []res, len(sc.Threads))
+	for ti, th := range sc.Threads {
+		ti, th := ti, th
+		simrt.Go(fmt.Sprintf("lim-client-%d", ti), func() {
+			var mine []res
+			for _, ev := range th {
+				ip, conn := fmt.Sprintf("10.0.0.%d", ev.IP), fmt.Sprintf("conn-%d", ev.Conn)
+				var ok bool
+				if ev.Op == "" {
+					ok = rl.AllowRequest(ip, conn)
+				} else {
+					ok = rl.AllowOperation(ip, absnfs.OperationType(ev.Op))
+				}
+				mine = append(mine, res{ev, ok})
+			}
+			simrt.Send("lim.done", done, mine)
+		})
+	}
+	var all []res
+	for range sc.Threads {
+		all = append(all, simrt.Recv("lim.wait", done)...)
+	}
+	o.NonTrivial = len(all) >= 3 && len(sc.Threads) >= 2
+	perIP, perConn, perOp := map[int]int{}, map[int]int{}, map[string]int{}
+	global := 0
+	for _, r := range all {
+		if !r.ok {
+			continue
+		}
+		if r.ev.Op != "" {
+			perOp[fmt.Sprintf("%d/%s", r.ev.IP, r.ev.Op)]++
+			continue
+		}
+		global++
+		perIP[r.ev.IP]++
+		perConn[r.ev.Conn]++
+	}
+	o.Checks++
+	if global > cfg.Global {
+		o.Vio("C18.bound-exceeded", "level=global,concurrent", "%d requests admitted at one instant, the global limit allows %d", global, cfg.Global)
+	}
+	var ks []int
+	for ip := range perIP {
+		ks = append(ks, ip)
+	}
+	sort.Ints(ks)
+	for _, ip := range ks {
+		if perIP[ip] > cfg.PerIPBurst {
+			o.Vio("C18.bound-exceeded", "level=per-ip,concurrent", "address 10.0.0.%d: %d requests admitted at one instant by concurrent callers, per-address burst is %d", ip, perIP[ip], cfg.PerIPBurst)
+		}
+	}
+	if cfg.PerConn > 0 {
+		ks = ks[:0]
+		for c := range perConn {
+			ks = append(ks, c)
+		}
+		sort.Ints(ks)
+		for _, c := range ks {
+			if perConn[c] > cfg.ConnBurst {
+				o.Vio("C18.bound-exceeded", "level=per-conn,concurrent", "connection conn-%d: %d requests admitted at one instant by concurrent callers, per-connection burst is %d", c, perConn[c], cfg.ConnBurst)
+			}
+		}
+	}
+	var oks []string
+	for k := range perOp {
+		oks = append(oks, k)
+	}
+	sort.Strings(oks)
+	for _, k := range oks {
+		op := k[strings.Index(k, "/")+1:]
+		if perOp[k] > opBurst(op) {
+			o.Vio("C18.bound-exceeded", "level=op:"+op+",concurrent", "%s: %d operations admitted at one instant by concurrent callers, burst is %d", k, perOp[k], opBurst(op))
+		}
+	}
+}
+
 // bucket is the reference token bucket: tokens = min(burst, tokens + rate*dt).
 type bucket struct {
 	tokens, burst, rate float64
@@ -166,6 +253,10 @@ func runLimiter(t *testing.T, scAny any, trace bool) *Outcome {
 	o := &Outcome{}
 	res := Bubble(t, sc.Sched.config(trace), nil, func() {
 		simrt.Event("scenario %x", simrt.Hash(hashBytes(mustJSON(sc))))
+		if len(sc.Threads) > 0 && sc.Kind == "C18" {
+			runLimiterBoundConcurrent(o, sc)
+			return
+		}
 		if len(sc.Threads) > 0 {
 			runLimiterConcurrent(o, sc)
 			return
@@ -351,6 +442,29 @@ func genLimCfg(r *simrt.Rand) LimCfg {
 }
 
 func genC18(r *simrt.Rand, tier string) any {
+	if r.Pct(25) {
+		// concurrent variant: 2-4 tasks, a few addresses and connections, everything at one instant
+		sc := &LimScn{Kind: "C18", Cfg: genLimCfg(r), Sched: RandSched(r)}
+		sc.Sched.HorizonS = 600
+		for _, f := range []*int{&sc.Cfg.Global, &sc.Cfg.PerIP, &sc.Cfg.PerIPBurst} {
+			if *f < 1 {
+				*f = 1
+			}
+		}
+		if sc.Cfg.PerConn > 0 && sc.Cfg.ConnBurst < 1 {
+			sc.Cfg.ConnBurst = 1
+		}
+		nip, nconn := 1+r.Int(2), 1+r.Int(2)
+		ops := []string{"", "", "", "", "read_large", "write_large", "readdir", "mount"}
+		for t, nt := 0, 2+r.Int(3); t < nt; t++ {
+			var th []LimEv
+			for i, n := 0, 1+r.Int(4); i < n; i++ {
+				th = append(th, LimEv{IP: r.Int(nip), Conn: r.Int(nconn), Op: ops[r.Int(len(ops))]})
+			}
+			sc.Threads = append(sc.Threads, th)
+		}
+		return sc
+	}
 	sc := &LimScn{Kind: "C18", Cfg: genLimCfg(r), Sched: SeqSched(r.Uint64())}
 	n := 10 + r.Int(60)
 	nip, nconn := 1+r.Int(3), 1+r.Int(3)
@@ -444,7 +558,7 @@ func init() {
 	real := []string{"RateLimiter", "TokenBucket", "PerIPLimiter (incl. cleanup)", "PerOperationLimiter (incl. cleanup)", "per-connection sync.Map limiters"}
 	stub := []string{"clock (synctest fake clock)", "sync.Mutex (simrt equivalents)", "the connection loop is not in this family (it is exercised by C14/C16)"}
 	Register(&Prop{ID: "C18", Level: "exploration",
-		Rule: "one case = a timing sequence of 10-70 AllowRequest/AllowOperation events over 1-3 IPs, 1-3 connections and all four operation types on the fake clock, with gaps drawn from {0, a third of a token, just over k tokens, milliseconds, seconds, hours (longer than CleanupInterval)} and rates/bursts incl. zero and the fractional mount rate; oracles: per limiter instance admitted <= burst + rate*elapsed at every prefix (reference buckets), a request inside all limits is admitted when nothing was refused before, and the same sequence under CleanupInterval 1 ms and 24 h yields identical decisions; non-trivial = at least one event; distinct by event digest",
+		Rule: "one case = a timing sequence of 10-70 AllowRequest/AllowOperation events over 1-3 IPs, 1-3 connections and all four operation types on the fake clock, with gaps drawn from {0, a third of a token, just over k tokens, milliseconds, seconds, hours (longer than CleanupInterval)} and rates/bursts incl. zero and the fractional mount rate; oracles: per limiter instance admitted <= burst + rate*elapsed at every prefix (reference buckets), a request inside all limits is admitted when nothing was refused before, and the same sequence under CleanupInterval 1 ms and 24 h yields identical decisions; 25% of the cases are concurrent: 2-4 tasks issue 1-4 AllowRequest/AllowOperation calls each for 1-2 addresses and connections at ONE simulated instant under the seeded scheduler (buckets are created while others look them up) and every limit may then admit at most its burst; non-trivial = at least one event; distinct by event digest",
 		Gen:  genC18, New: func() any { return &LimScn{} }, Run: runLimiter, Shrink: shrinkLim, Real: real, Stubbed: stub})
 	Register(&Prop{ID: "C19", Level: "exploration",
 		Rule: "one case = 20-100 events: an abusive client sending far beyond its per-IP/per-connection limit interleaved on the fake clock with compliant clients spaced seconds apart, under small global budgets; oracle: with reference buckets charged only by admitted requests, a compliant request inside its own limits is admitted whenever the admitted total leaves a token in the global budget; 25% of the cases are concurrent: an abusive client (3-7 requests) and 1-3 fresh clients call AllowRequest at one simulated instant from separate tasks under the seeded scheduler (global budget 1-3, per-client burst 1-2) and the decisions are checked with porcupine against a specification in which an admission needs room in both budgets and a refusal needs either an exhausted global budget (counting admitted requests only) or a client that has itself issued its burst; non-trivial = at least one event (>= 3 requests from >= 2 tasks when concurrent); distinct by event digest",
